@@ -154,7 +154,7 @@ pub fn run_case(c: &RCase, st: &mut Stats) -> Result<(), (String, String)> {
 pub const RULE: &str = "adapter level: the program's own price adapter (try_from_bank_with_max_age + get_price_of_type) for Kamino/Solend x Pyth/Switchboard banks over extreme reserve states: available / borrowed in {0, units, ..., 2^62}, fees up to 100% of liquidity, supplies from 1 to 2^62, decimals 0-19 and 23 (states whose scaled collateral supply is below 2^-38 are skipped: that is the regime of the recorded double-flooring finding): returned price <= price x exact (liquidity/collateral) x (1 + 2^-9) + 4 ulp x price + 2 feed units, never negative; failing closed is always accepted. Non-trivial = the exact rate is zero or the liquidity vanishes after decimal scaling while collateral is outstanding.";
 
 pub fn run(ctx: &Ctx) -> Report {
-    let cases: u32 = ctx.tier.pick(20_000, 400_000);
+    let cases: u32 = ctx.tier.pick(20_000, 2_000_000);
     par_workers(ctx.threads, |wi| {
         let mut rep = Report::new(RULE);
         let strat = case_strategy();
